@@ -1504,7 +1504,7 @@ namespace fsw
             for (const Step& st : plan.steps)
             {
                 size_t before = run.step;
-                step(st);
+                as_caller(run, st, [&] { step(st); });
                 if (run.step == before) { StepScope sc(run, st, "noop"); }   // unknown op: still one tick
             }
             for (int i = 0; i < 3; ++i) slot[i].unguard();
